@@ -416,7 +416,11 @@ Definition cworld := world oid.
 Definition part_tab (tab : list (oid * oid)) (b : oid) : oid :=
   match aget list_N_eqb b tab with Some p => p | None => b end.
 
-Definition not_mkdir (s : cstep) : bool := match s with Mkdir _ => false | _ => true end.
+(* events without effect on the world are erased before a generated program is compared with a
+   recorded trace: mkdir / chmod of fan-out directories, and the state transaction of NO rows (the
+   implementation returns before touching the database; an add of no files is not even called) *)
+Definition not_mkdir (s : cstep) : bool :=
+  match s with Mkdir _ => false | StateSave [] => false | _ => true end.
 
 Definition step_eqb (a b : cstep) : bool :=
   match a, b with
